@@ -6,6 +6,10 @@ from vf.ref.ecref import SECP256K1 as S
 from vf.runner import Acc, filler
 
 PROPERTY = "C03"
+# E6: seq_ops() indices of the operations that are interrupted at every line (vf/seqexplore.interrupted); probes = the whole alphabet
+INTERRUPT_X = [4, 9]
+INTERRUPT_PROBES = None
+CONCUR_FILES = ('bits/ecmath.py', 'bits/utils.py', 'bits/keys.py')
 LEVEL = "exploration"
 ENGINES = ["E2-small-curve", "E1-scope-enumerator"]
 RULE = ("small curves (p=43,67,79; thorough +127,163,211): the library's own functions, retargeted by the guarded hook, "
@@ -22,6 +26,7 @@ ASSUMPTIONS = [
 ]
 OBLIGATIONS = {
     "long_history": "operations executed in one long history (every key of a 199-element group, forward / forward / reverse)",
+    "interrupted_calls": "interruption points explored (an earlier call cut short by an asynchronous exception, then ordinary calls)",
     "history_sequences": "operation sequences (non-initial process states) explored",
     "concurrent_calls": "interleavings of two concurrent scalar multiplications (cold and after sequential warm-up calls)",
     "add_identity": "P + identity / identity + identity evaluated",
@@ -236,6 +241,9 @@ def run_case(kind, case):
         from vf import concur
         calls, warm, judge = _concur_setup(case)
         return concur.replay_calls(calls, ("bits/ecmath.py",), case["choices"], judge, warmup=warm)
+    if kind == "interrupted":
+        from vf import seqexplore
+        return seqexplore.replay_interrupted(run_case, case)
     if kind == "seq":
         from vf import seqexplore
         return seqexplore.replay(run_case, case)
@@ -314,6 +322,8 @@ def jobs(tier, seed):
     js += seq_jobs(1, weight=3, name="seqreal")
     from vf.runner import long_jobs
     js += long_jobs(curve=list(smallcurve.TABLE[5]))
+    from vf.runner import interrupt_jobs
+    js += interrupt_jobs(len(INTERRUPT_X), curve=list(smallcurve.TABLE[0]))
     for i in range(3):
         js.append({"name": f"concurrent-mul/{i}", "part": "concur", "curve": list(smallcurve.TABLE[0]), "idx": i, "weight": 5})
     return js
@@ -323,6 +333,11 @@ def run_job(job):
     if job["part"] == "longhist":
         from vf.runner import run_long_job
         return run_long_job(job, long_ops(job), run_case)
+    if job["part"] == "interrupted":
+        from vf.runner import run_interrupt_job
+        ops = [o for o in seq_ops(dict(job, part="interrupted", shard=[0, 1]))]
+        probes = ops if INTERRUPT_PROBES is None else [ops[i] for i in INTERRUPT_PROBES]
+        return run_interrupt_job(job, [ops[i] for i in INTERRUPT_X], probes, run_case, CONCUR_FILES)
     if job["part"] == "seq":
         from vf.runner import run_seq_job
         return run_seq_job(job, seq_ops(job), run_case)
